@@ -1,6 +1,7 @@
 import ServiceModel.Proofs.Reachable
 import ServiceModel.Proofs.Stable
 import ServiceModel.Proofs.RestartStable
+import ServiceModel.Proofs.MonitorSound
 /-!
 # C13 — Earnings are accounted per provider and per owner and paid out exactly
 -/
@@ -142,5 +143,11 @@ theorem withdraw_address_survives_everything_but_owner_message (hc : CfgOK cfg p
 /-- The double bookkeeping of earnings holds in every state of a chain with restarts. -/
 theorem owner_earnings_are_sum_across_restarts (hc : CfgOK cfg p) {s : State} (hr : ReachableR cfg p h0 t0 s) (o : Addr) :
     balOf s.ownerEarned o = ownedEarned s o := (reachableR_invAll hc hr).inv.m.ownerSum o
+
+/-- The executable monitor `ownerEarnings`, which the check evaluates on every state decoded from the implementation's
+    trace, reports nothing on any state of a chain of the model (restarts included): an alarm of it on an
+    implementation state shows a state the model cannot reach. -/
+theorem earnings_monitor_implied (hc : CfgOK cfg p) {s : State} (hr : ReachableR cfg p h0 t0 s) :
+    Mon.ownerEarnings s = [] := ownerEarnings_sound (reachableR_invAll hc hr).inv
 
 end SM.C13
